@@ -431,7 +431,7 @@ Definition apply_label (x : xsys) (lab : bytes) : option bytes * xsys * option b
       (None, serve (S (length (x_c2s x))) (beq idtxt [42]) x, None)
     else if kind =? 68 then  (* D<k>: deliver k bytes of the server's output (0 = all) *)
       let k := if id =? 0 then length (x_s2c x) else N.to_nat id in
-      let chunk := firstn k (x_s2c x) in
+      let chunk := if x_eof x then [] else firstn k (x_s2c x) in    (* nothing arrives after the end of the stream *)
       match chunk with
       | [] => (None, x, None)
       | _ =>
@@ -439,7 +439,7 @@ Definition apply_label (x : xsys) (lab : bytes) : option bytes * xsys * option b
         run_op (b "d:" ++ hex chunk) (set_conn x1 (x_buf x1) (x_bst x1) (x_inbox x1 ++ chunk)) seg0
       end
     else if kind =? 71 then  (* G:<hex>: bytes no server would send *)
-      match unhex arg with
+      match (if x_eof x then [] else unhex arg) with
       | [] => (None, x, None)
       | chunk => run_op (b "d:" ++ hex chunk) (set_conn x (x_buf x) (x_bst x) (x_inbox x ++ chunk)) seg0
       end
